@@ -307,7 +307,9 @@ class New(cssutils.util._BaseClass):
             return Constants.attend
 
         # context: negation
-        elif 'negation' == context:
+        elif 'negation' == context and (
+            'type_selector' in expected or Constants.element_name == expected
+        ):
             # negation: (prefix|IDENT)
             self.append(seq, val, 'negation-type-selector', token=token)
             return Constants.negationend
